@@ -87,27 +87,41 @@ static const uint8_t IV[16] = { 0xa0, 0xa1, 0xa2, 0xa3, 0xa4, 0xa5, 0xa6, 0xa7, 
 
 typedef struct { uint8_t *p; size_t n; } blob_t;
 
+/* buffers of the same role and length live at the same address for the whole run (exactly sized, so ASan still sees
+ * overruns): consecutive operations then hand the library the same (pointer, length) with different content */
+#define RA_MAX 8192
+static struct { int slot; size_t n; uint8_t *p; } ra_tab[RA_MAX]; static size_t ra_cnt;
+static uint8_t *reuse_alloc(int slot, size_t n) {
+	size_t i; for (i = 0; i < ra_cnt; i++) if (ra_tab[i].slot == slot && ra_tab[i].n == n) return ra_tab[i].p;
+	if (ra_cnt == RA_MAX) return malloc(n ? n : 1);
+	ra_tab[ra_cnt].slot = slot; ra_tab[ra_cnt].n = n; ra_tab[ra_cnt].p = malloc(n ? n : 1); return ra_tab[ra_cnt++].p;
+}
+static void msg_free(uint8_t *p) { size_t i; for (i = 0; i < ra_cnt; i++) if (ra_tab[i].p == p) return; free(p); }
+static const uint8_t *cert_at_shared_address(int idx) {       /* the recipient's certificate, loaded into the shared certificate buffer */
+	uint8_t *p = reuse_alloc(1, certlens[idx]); memcpy(p, certs[idx], certlens[idx]); return p;
+}
+
 /* ------------------------------------------------------------------ producers */
 static blob_t make_signed(const int *ids, size_t n, int ctype, const buf_t *content) {
 	blob_t r = { NULL, 0 }; CMS_CERTS_AND_KEY signers[8]; size_t i, len = 0;
 	for (i = 0; i < n; i++) { signers[i].certs = certs[ids[i]]; signers[i].certs_len = certlens[ids[i]]; signers[i].sign_key = &keys[ids[i]]; }
 	if (cms_sign(NULL, &len, signers, n, ctype, content->p, content->n, NULL, 0) != 1) return r;
-	r.p = malloc(len ? len : 1);
-	if (cms_sign(r.p, &r.n, signers, n, ctype, content->p, content->n, NULL, 0) != 1 || r.n != len) { free(r.p); r.p = NULL; r.n = 0; }
+	r.p = reuse_alloc(0, len);
+	if (cms_sign(r.p, &r.n, signers, n, ctype, content->p, content->n, NULL, 0) != 1 || r.n != len) { r.p = NULL; r.n = 0; }
 	return r;
 }
 static blob_t make_env(const int *ids, size_t n, int ctype, const buf_t *content) {
 	blob_t r = { NULL, 0 }; uint8_t rc[NK * 1024]; size_t rclen = concat_certs(ids, n, rc), len = 0;
 	if (cms_envelop(NULL, &len, rc, rclen, OID_sm4_cbc, cur_key, 16, IV, 16, ctype, content->p, content->n, NULL, 0, NULL, 0) != 1) return r;
-	r.p = malloc(len ? len : 1);
-	if (cms_envelop(r.p, &r.n, rc, rclen, OID_sm4_cbc, cur_key, 16, IV, 16, ctype, content->p, content->n, NULL, 0, NULL, 0) != 1 || r.n != len) { free(r.p); r.p = NULL; r.n = 0; }
+	r.p = reuse_alloc(0, len);
+	if (cms_envelop(r.p, &r.n, rc, rclen, OID_sm4_cbc, cur_key, 16, IV, 16, ctype, content->p, content->n, NULL, 0, NULL, 0) != 1 || r.n != len) { r.p = NULL; r.n = 0; }
 	return r;
 }
 static blob_t make_enc(int ctype, const buf_t *content) {
 	blob_t r = { NULL, 0 }; size_t len = 0;
 	if (cms_encrypt(NULL, &len, OID_sm4_cbc, SYMKEY, 16, IV, 16, ctype, content->p, content->n, NULL, 0, NULL, 0) != 1) return r;
-	r.p = malloc(len ? len : 1);
-	if (cms_encrypt(r.p, &r.n, OID_sm4_cbc, SYMKEY, 16, IV, 16, ctype, content->p, content->n, NULL, 0, NULL, 0) != 1 || r.n != len) { free(r.p); r.p = NULL; r.n = 0; }
+	r.p = reuse_alloc(0, len);
+	if (cms_encrypt(r.p, &r.n, OID_sm4_cbc, SYMKEY, 16, IV, 16, ctype, content->p, content->n, NULL, 0, NULL, 0) != 1 || r.n != len) { r.p = NULL; r.n = 0; }
 	return r;
 }
 static uint8_t crl1[512]; static size_t crl1len;
@@ -116,8 +130,8 @@ static blob_t make_signenv(const int *sids, size_t ns, const int *rids, size_t n
 	blob_t r = { NULL, 0 }; CMS_CERTS_AND_KEY signers[8]; size_t i, len = 0; uint8_t rc[NK * 1024]; size_t rclen = concat_certs(rids, nr, rc);
 	for (i = 0; i < ns; i++) { signers[i].certs = certs[sids[i]]; signers[i].certs_len = certlens[sids[i]]; signers[i].sign_key = &keys[sids[i]]; }
 	if (cms_sign_and_envelop(NULL, &len, signers, ns, rc, rclen, OID_sm4_cbc, cur_key, 16, IV, 16, ctype, content->p, content->n, crls, crlslen, NULL, 0, NULL, 0) != 1) return r;
-	r.p = malloc(len ? len : 1);
-	if (cms_sign_and_envelop(r.p, &r.n, signers, ns, rc, rclen, OID_sm4_cbc, cur_key, 16, IV, 16, ctype, content->p, content->n, crls, crlslen, NULL, 0, NULL, 0) != 1 || r.n != len) { free(r.p); r.p = NULL; r.n = 0; }
+	r.p = reuse_alloc(0, len);
+	if (cms_sign_and_envelop(r.p, &r.n, signers, ns, rc, rclen, OID_sm4_cbc, cur_key, 16, IV, 16, ctype, content->p, content->n, crls, crlslen, NULL, 0, NULL, 0) != 1 || r.n != len) { r.p = NULL; r.n = 0; }
 	return r;
 }
 
@@ -136,7 +150,7 @@ static int open_signed(const blob_t *m, const buf_t *content, size_t *ncerts, si
 }
 static int open_env(const blob_t *m, const SM2_KEY *k, int certidx, const buf_t *content) {
 	int ct; uint8_t *out = malloc(m->n + 64); size_t outlen = 0; const uint8_t *ri, *s1, *s2; size_t ril, s1l, s2l; int r;
-	if (cms_deenvelop(m->p, m->n, k, certs[certidx], certlens[certidx], &ct, out, &outlen, &ri, &ril, &s1, &s1l, &s2, &s2l) != 1) { free(out); return 0; }
+	if (cms_deenvelop(m->p, m->n, k, cert_at_shared_address(certidx), certlens[certidx], &ct, out, &outlen, &ri, &ril, &s1, &s1l, &s2, &s2l) != 1) { free(out); return 0; }
 	r = (outlen == content->n && memcmp(out, content->p, outlen) == 0) ? 1 : 2; free(out); return r;
 }
 static int open_enc(const blob_t *m, const uint8_t *key, const buf_t *content) {
@@ -146,7 +160,7 @@ static int open_enc(const blob_t *m, const uint8_t *key, const buf_t *content) {
 }
 static int open_signenv(const blob_t *m, const SM2_KEY *k, int certidx, const buf_t *content) {
 	int ct; uint8_t *out = malloc(m->n + 64); size_t outlen = 0; const uint8_t *ri, *si, *cs, *crls, *s1, *s2; size_t ril, sil, csl, crll, s1l, s2l; int r;
-	if (cms_deenvelop_and_verify(m->p, m->n, k, certs[certidx], certlens[certidx], NULL, 0, NULL, 0, &ct, out, &outlen,
+	if (cms_deenvelop_and_verify(m->p, m->n, k, cert_at_shared_address(certidx), certlens[certidx], NULL, 0, NULL, 0, &ct, out, &outlen,
 		&ri, &ril, &si, &sil, &cs, &csl, &crls, &crll, &s1, &s1l, &s2, &s2l) != 1) { free(out); return 0; }
 	r = (outlen == content->n && memcmp(out, content->p, outlen) == 0) ? 1 : 2; free(out); return r;
 }
@@ -222,8 +236,20 @@ static void enckey_region(region_t *r, const blob_t *m, const uint8_t *ri, size_
 		if (sl == seriallens[opener] && !memcmp(ser, serials[opener], sl)) { set_region(r, m, ek, ekl); set_region(&idr[8], m, iss, il); set_region(&idr[9], m, ser, sl); return; }
 	}
 }
-static void do_tamper(const char *kind, size_t step, size_t off, const buf_t *content) {
+static void do_tamper(const char *kindspec, size_t step, size_t off, const buf_t *content) {
+	/* kindspec = kind[:signers[:rcpts[:opener]]] (for sign: kind:signers; for env: kind:rcpts:opener); with parameters only the
+	   regions the property names (and the identifiers) are swept - every SignerInfo, the opener's RecipientInfo, IV */
 	int s1[] = { 1 }, s11[] = { 1, 1 }, r23[] = { 2, 3 }; blob_t m = { NULL, 0 }; size_t i; int b, k;
+	char kbuf[64]; char *kind = kbuf; int sg[8], rc[8]; size_t nsg = 1, nrc = 2; int opener = 2; int listed_only = 0;
+	sg[0] = 1; rc[0] = 2; rc[1] = 3;
+	snprintf(kbuf, sizeof kbuf, "%s", kindspec);
+	{ char *c1 = strchr(kbuf, ':');
+	  if (c1) { char *c2, *c3; *c1++ = 0; listed_only = 1; c2 = strchr(c1, ':'); if (c2) *c2++ = 0; c3 = c2 ? strchr(c2, ':') : NULL; if (c3) *c3++ = 0;
+		if (!strcmp(kind, "sign")) { nsg = parse_ids(c1, sg, 8); }
+		else if (!strcmp(kind, "env")) { nrc = parse_ids(c1, rc, 8); if (c2) opener = atoi(c2); }
+		else if (!strcmp(kind, "signenv")) { nsg = parse_ids(c1, sg, 8); if (c2) nrc = parse_ids(c2, rc, 8); if (c3) opener = atoi(c3); }
+		if (nsg == (size_t)-1 || nrc == (size_t)-1 || !nsg || !nrc || opener < 1 || opener > NK) { printf("ERR spec"); return; } } }
+	(void)s1; (void)r23;
 	/* reg[0] content, reg[1] first signature, reg[2] enckey, reg[3] iv, reg[4] ciphertext, reg[5] unlisted, reg[6..8] further signatures */
 	region_t reg[9] = { { "content", -1, 0, 0 }, { "signature", -1, 0, 0 }, { "enckey", -1, 0, 0 }, { "iv", -1, 0, 0 }, { "ciphertext", -1, 0, 0 }, { "unlisted", -1, 0, 0 },
 		{ "signature", -1, 0, 0 }, { "signature", -1, 0, 0 }, { "signature", -1, 0, 0 } };
@@ -231,16 +257,16 @@ static void do_tamper(const char *kind, size_t step, size_t off, const buf_t *co
 	long tried = 0, crashed = 0, fc_i = -1, fl_i = -1; int fc_b = -1, fl_b = -1; const char *fl_r = NULL; long signerid = 0, rcptid = 0; int idk;
 	for (idk = 0; idk < 10; idk++) { idr[idk].off = -1; idr[idk].len = 0; }
 	uint8_t *ct = malloc(content->n + 32); size_t ct_len = 0; SM4_KEY sk;
-	if (!strcmp(kind, "sign")) m = make_signed(s1, 1, OID_cms_data, content);
+	if (!strcmp(kind, "sign")) m = make_signed(sg, nsg, OID_cms_data, content);
 	else if (!strcmp(kind, "sign2")) { m = make_signed(s11, 2, OID_cms_data, content); kind = "sign"; }   /* two SignerInfos */
-	else if (!strcmp(kind, "env")) m = make_env(r23, 2, OID_cms_data, content);
+	else if (!strcmp(kind, "env")) m = make_env(rc, nrc, OID_cms_data, content);
 	else if (!strcmp(kind, "enc")) m = make_enc(OID_cms_data, content);
-	else if (!strcmp(kind, "signenv")) m = make_signenv(s1, 1, r23, 2, OID_cms_data, content, 1);
+	else if (!strcmp(kind, "signenv")) m = make_signenv(sg, nsg, rc, nrc, OID_cms_data, content, 1);
 	if (!m.p || !step) { printf("ERR produce"); free(ct); return; }
 	/* locate the regions the property names, using the library's own parsers on the untouched message */
 	if (!strcmp(kind, "sign")) {
 		int t; const uint8_t *c, *cs, *crls, *si; size_t cl, csl, crll, sil;
-		if (cms_verify(m.p, m.n, NULL, 0, NULL, 0, &t, &c, &cl, &cs, &csl, &crls, &crll, &si, &sil) != 1) { printf("ERR untouched-message-refused"); free(m.p); free(ct); return; }
+		if (cms_verify(m.p, m.n, NULL, 0, NULL, 0, &t, &c, &cl, &cs, &csl, &crls, &crll, &si, &sil) != 1) { printf("ERR untouched-message-refused"); msg_free(m.p); free(ct); return; }
 		set_region(&reg[0], &m, c, cl); sig_region(sigs, 4, &m, si, sil);
 	} else {
 		long o;
@@ -249,16 +275,22 @@ static void do_tamper(const char *kind, size_t step, size_t off, const buf_t *co
 		if ((o = find(m.p, m.n, IV, 16)) >= 0) { reg[3].off = o; reg[3].len = 16; }
 		if (!strcmp(kind, "env")) {
 			int t; uint8_t *out = malloc(m.n + 64); size_t ol; const uint8_t *ri, *a1, *a2; size_t ril, l1, l2;
-			if (cms_deenvelop(m.p, m.n, &keys_pub[2], certs[2], certlens[2], &t, out, &ol, &ri, &ril, &a1, &l1, &a2, &l2) != 1) { printf("ERR untouched-message-refused"); free(out); free(m.p); free(ct); return; }
-			enckey_region(&reg[2], &m, ri, ril, 2); free(out);
+			if (cms_deenvelop(m.p, m.n, &keys_pub[opener], certs[opener], certlens[opener], &t, out, &ol, &ri, &ril, &a1, &l1, &a2, &l2) != 1) { printf("ERR untouched-message-refused"); free(out); msg_free(m.p); free(ct); return; }
+			enckey_region(&reg[2], &m, ri, ril, opener); free(out);
 		} else if (!strcmp(kind, "signenv")) {
 			int t; uint8_t *out = malloc(m.n + 64); size_t ol; const uint8_t *ri, *si, *cs, *crls, *a1, *a2; size_t ril, sil, csl, crll, l1, l2;
-			if (cms_deenvelop_and_verify(m.p, m.n, &keys_pub[2], certs[2], certlens[2], NULL, 0, NULL, 0, &t, out, &ol, &ri, &ril, &si, &sil, &cs, &csl, &crls, &crll, &a1, &l1, &a2, &l2) != 1) { printf("ERR untouched-message-refused"); free(out); free(m.p); free(ct); return; }
-			enckey_region(&reg[2], &m, ri, ril, 2); sig_region(sigs, 4, &m, si, sil); free(out);
-		} else if (open_enc(&m, SYMKEY, content) != 1) { printf("ERR untouched-message-refused"); free(m.p); free(ct); return; }
+			if (cms_deenvelop_and_verify(m.p, m.n, &keys_pub[opener], certs[opener], certlens[opener], NULL, 0, NULL, 0, &t, out, &ol, &ri, &ril, &si, &sil, &cs, &csl, &crls, &crll, &a1, &l1, &a2, &l2) != 1) { printf("ERR untouched-message-refused"); free(out); msg_free(m.p); free(ct); return; }
+			enckey_region(&reg[2], &m, ri, ril, opener); sig_region(sigs, 4, &m, si, sil); free(out);
+		} else if (open_enc(&m, SYMKEY, content) != 1) { printf("ERR untouched-message-refused"); msg_free(m.p); free(ct); return; }
 	}
 	reg[1] = sigs[0]; reg[6] = sigs[1]; reg[7] = sigs[2]; reg[8] = sigs[3];
 	for (i = off; i < m.n; i += step) {
+		if (listed_only) {
+			int in = 0;
+			for (k = 0; k < 9; k++) if (k != 5 && k != 4 && reg[k].off >= 0 && (long)i >= reg[k].off && (size_t)i < (size_t)reg[k].off + reg[k].len) in = 1;
+			for (idk = 0; idk < 10; idk++) if (idr[idk].off >= 0 && (long)i >= idr[idk].off && (size_t)i < (size_t)idr[idk].off + idr[idk].len) in = 1;
+			if (!in) continue;
+		}
 		/* the eight flips of one byte run in a child: a sanitizer abort inside the parser must not end the sweep */
 		int fds[2]; pid_t pid; uint8_t rs[8]; ssize_t got = 0; int st; int ri = 5;
 		if (pipe(fds) != 0) break;
@@ -270,9 +302,9 @@ static void do_tamper(const char *kind, size_t step, size_t off, const buf_t *co
 				int r;
 				m.p[i] ^= (uint8_t)(1 << b);
 				if (!strcmp(kind, "sign")) r = open_signed(&m, content, NULL, NULL);
-				else if (!strcmp(kind, "env")) r = open_env(&m, &keys_pub[2], 2, content);
+				else if (!strcmp(kind, "env")) r = open_env(&m, &keys_pub[opener], opener, content);
 				else if (!strcmp(kind, "enc")) r = open_enc(&m, SYMKEY, content);
-				else r = open_signenv(&m, &keys_pub[2], 2, content);
+				else r = open_signenv(&m, &keys_pub[opener], opener, content);
 				m.p[i] ^= (uint8_t)(1 << b);
 				rs[0] = (uint8_t)r; if (write(fds[1], rs, 1) != 1) _exit(3);
 			}
@@ -298,7 +330,7 @@ static void do_tamper(const char *kind, size_t step, size_t off, const buf_t *co
 	printf(" faults=%ld", crashed);
 	if (fl_i >= 0) printf(" first=%s:byte%ld/bit%d", fl_r, fl_i, fl_b);
 	if (fc_i >= 0) printf(" first_fault=byte%ld/bit%d", fc_i, fc_b);
-	free(m.p); free(ct);
+	msg_free(m.p); free(ct);
 }
 
 /* ------------------------------------------------------------------ structural omission (wave 2)
@@ -343,14 +375,14 @@ static void do_omit(const char *kind, char *pathstr, int k, const buf_t *content
 	else if (!strcmp(kind, "signenv")) m = make_signenv(s1, 1, r23, 2, OID_cms_data, content, 1);
 	if (!m.p) { printf("ERR produce"); return; }
 	t.p = malloc(m.n + 16); t.n = der_omit(m.p, m.n, path, plen, k, t.p, &nochild);
-	if (!t.n) { printf(nochild ? "NOCHILD" : "ERR surgery"); free(m.p); free(t.p); return; }
+	if (!t.n) { printf(nochild ? "NOCHILD" : "ERR surgery"); msg_free(m.p); free(t.p); return; }
 	{ uint8_t *e = malloc(t.n); memcpy(e, t.p, t.n); free(t.p); t.p = e; }   /* exactly sized */
 	if (!strcmp(kind, "sign")) r = open_signed(&t, content, NULL, NULL);
 	else if (!strcmp(kind, "env")) r = open_env(&t, &keys_pub[2], 2, content);
 	else if (!strcmp(kind, "enc")) r = open_enc(&t, SYMKEY, content);
 	else r = open_signenv(&t, &keys_pub[2], 2, content);
 	printf("%s", r == 0 ? "REFUSED" : r == 1 ? "OPENED-SAME-CONTENT" : "OPENED-OTHER-CONTENT");
-	free(m.p); free(t.p);
+	msg_free(m.p); free(t.p);
 }
 
 /* fill the stack region the next calls will use with 64-bit words of value 16 */
@@ -373,7 +405,7 @@ static void do_lowseq(const char *kind, char *rc, int mem, int out, const buf_t 
 	cp = m.p; cl = m.n;
 	if (cms_content_info_from_der(&t, &d, &dl, &cp, &cl) != 1
 		|| x509_cert_get_issuer_and_serial_number(certs[mem], certlens[mem], &iss[0], &il[0], &ser[0], &sl[0]) != 1
-		|| x509_cert_get_issuer_and_serial_number(certs[out], certlens[out], &iss[1], &il[1], &ser[1], &sl[1]) != 1) { printf("ERR prep"); free(m.p); return; }
+		|| x509_cert_get_issuer_and_serial_number(certs[out], certlens[out], &iss[1], &il[1], &ser[1], &sl[1]) != 1) { printf("ERR prep"); msg_free(m.p); return; }
 	o = malloc(m.n + 64);
 	who[0] = 1; who[1] = 0; who[2] = 1; who[3] = 0; who[4] = 1;
 	for (i = 0; i < 5; i++) {
@@ -386,7 +418,34 @@ static void do_lowseq(const char *kind, char *rc, int mem, int out, const buf_t 
 		r[i] = rr != 1 ? 0 : ((ol == content->n && memcmp(o, content->p, ol) == 0) ? 1 : 2);
 	}
 	printf("E=1 outsider-on-poisoned-stack=%s member=%s outsider-after-member=%s member=%s outsider=%s", res(r[0]), res(r[1]), res(r[2]), res(r[3]), res(r[4]));
-	free(o); free(m.p);
+	free(o); msg_free(m.p);
+}
+
+/* openseq <env|signenv> <rcpts> <openers a.b.c> <content>: one message, opened by each listed party in turn; every party's
+ * certificate is loaded into the same shared buffer before its call (same address, same length, other content) */
+static void do_openseq(const char *kind, char *rc, char *ops, const buf_t *content) {
+	int ids[8], who[8], s1[] = { 1 }; size_t n = parse_ids(rc, ids, 8), k = parse_ids(ops, who, 8), i; blob_t m; int isenv = !strcmp(kind, "env");
+	if (n == (size_t)-1 || k == (size_t)-1 || !n || !k) { printf("ERR ids"); return; }
+	m = isenv ? make_env(ids, n, OID_cms_data, content) : make_signenv(s1, 1, ids, n, OID_cms_data, content, 1);
+	if (!m.p) { printf("E=ERR"); return; }
+	printf("E=1");
+	for (i = 0; i < k; i++) printf(" %d=%s", who[i], res(isenv ? open_env(&m, &keys_pub[who[i]], who[i], content) : open_signenv(&m, &keys_pub[who[i]], who[i], content)));
+}
+/* signseq <signersA> <signersB> <contentA> <contentB>: two signed messages, the second copied over the first in the same buffer
+ * when their lengths agree; each verified right after it was put there, then the first again */
+static void do_signseq(char *sa, char *sb, const buf_t *ca, const buf_t *cb) {
+	int ia[8], ib[8]; size_t na = parse_ids(sa, ia, 8), nb = parse_ids(sb, ib, 8); blob_t a, b, sh; uint8_t *keep;
+	if (na == (size_t)-1 || nb == (size_t)-1 || !na || !nb) { printf("ERR ids"); return; }
+	a = make_signed(ia, na, OID_cms_data, ca);
+	if (!a.p) { printf("S=ERR"); return; }
+	keep = malloc(a.n); memcpy(keep, a.p, a.n);
+	printf("A=%s", res(open_signed(&a, ca, NULL, NULL)));
+	b = make_signed(ib, nb, OID_cms_data, cb);            /* same length => same address: overwrites A in place */
+	if (!b.p) { printf(" S=ERR"); free(keep); return; }
+	printf(" same-buffer=%d B=%s", b.p == a.p, res(open_signed(&b, cb, NULL, NULL)));
+	sh.p = reuse_alloc(0, a.n); sh.n = a.n; memcpy(sh.p, keep, a.n);
+	printf(" A-again=%s", res(open_signed(&sh, ca, NULL, NULL)));
+	free(keep);
 }
 
 static void handle(size_t nw, char **w) {
@@ -399,19 +458,19 @@ static void handle(size_t nw, char **w) {
 		if (!m.p) { printf("S=ERR"); free(c.p); return; }
 		r = open_signed(&m, &c, &nc, &ni);
 		printf("S=1 V=%s", res(r)); if (r) printf(" ncerts=%zu ninfos=%zu", nc, ni);
-		free(m.p); free(c.p);
+		msg_free(m.p); free(c.p);
 	}
 	else if (!strcmp(w[0], "sign0") && nw == 3) {
 		buf_t c = hex2buf(w[2]); blob_t m = make_signed0(&c, !strcmp(w[1], "empty") ? 0 : !strcmp(w[1], "absent") ? 1 : !strcmp(w[1], "junk") ? 2 : 9);
 		if (!m.p) printf("ERR produce"); else printf("V=%s", res(open_signed(&m, &c, NULL, NULL)));
-		free(m.p); free(c.p);
+		msg_free(m.p); free(c.p);
 	}
 	else if (!strcmp(w[0], "env") && nw == 5) {
 		int ids[8]; size_t n = parse_ids(w[1], ids, 8); int op = atoi(w[2]); buf_t c = hex2buf(w[4]); blob_t m;
 		if (n == (size_t)-1 || op < 1 || op > NK) { printf("ERR ids"); free(c.p); return; }
 		m = make_env(ids, n, OID_cms_data, &c);
 		if (!m.p) printf("E=ERR"); else printf("E=1 D=%s", res(open_env(&m, key_from(w[3], op), op, &c)));
-		free(m.p); free(c.p);
+		msg_free(m.p); free(c.p);
 	}
 	else if (!strcmp(w[0], "envseq") && nw == 5) {      /* envseq <rcpts> <member> <outsider> <content>: the same frame opens twice */
 		int ids[8]; size_t n = parse_ids(w[1], ids, 8); int mem = atoi(w[2]), out = atoi(w[3]); buf_t c = hex2buf(w[4]); blob_t m; int r1, r2, r3;
@@ -423,7 +482,7 @@ static void handle(size_t nw, char **w) {
 		printf("E=1 member=%s outsider=%s member-again=%s", res(r1), res(r2), res(r3));
 		r1 = open_env_low(&m, mem, &c); r2 = open_env_low(&m, out, &c); r3 = open_env_low(&m, out, &c);
 		printf(" low:member=%s outsider=%s outsider-again=%s", res(r1), res(r2), res(r3));
-		free(m.p); free(c.p);
+		msg_free(m.p); free(c.p);
 	}
 	else if (!strcmp(w[0], "signenvseq") && nw == 5) {
 		int ids[8], s1[] = { 1 }; size_t n = parse_ids(w[1], ids, 8); int mem = atoi(w[2]), out = atoi(w[3]); buf_t c = hex2buf(w[4]); blob_t m; int r1, r2;
@@ -435,20 +494,22 @@ static void handle(size_t nw, char **w) {
 		printf("E=1 member=%s outsider=%s", res(r1), res(r2));
 		r1 = open_signenv_low(&m, mem, &c); r2 = open_signenv_low(&m, out, &c);
 		printf(" low:member=%s outsider=%s", res(r1), res(r2));
-		free(m.p); free(c.p);
+		msg_free(m.p); free(c.p);
 	}
+	else if (!strcmp(w[0], "openseq") && nw == 5) { buf_t c = hex2buf(w[4]); do_openseq(w[1], w[2], w[3], &c); free(c.p); }
+	else if (!strcmp(w[0], "signseq") && nw == 5) { buf_t a = hex2buf(w[3]), b = hex2buf(w[4]); do_signseq(w[1], w[2], &a, &b); free(a.p); free(b.p); }
 	else if (!strcmp(w[0], "lowseq") && nw == 6) { buf_t c = hex2buf(w[5]); do_lowseq(w[1], w[2], atoi(w[3]), atoi(w[4]), &c); free(c.p); }
 	else if (!strcmp(w[0], "enc") && nw == 3) {
 		buf_t c = hex2buf(w[2]); blob_t m = make_enc(OID_cms_data, &c); uint8_t k2[16]; memcpy(k2, SYMKEY, 16); if (atoi(w[1])) k2[5] ^= 1;
 		if (!m.p) printf("E=ERR"); else printf("E=1 D=%s", res(open_enc(&m, k2, &c)));
-		free(m.p); free(c.p);
+		msg_free(m.p); free(c.p);
 	}
 	else if (!strcmp(w[0], "signenv") && nw == 7) {
 		int sids[8], rids[8]; size_t ns = parse_ids(w[1], sids, 8), nr = parse_ids(w[2], rids, 8); int op = atoi(w[3]); buf_t c = hex2buf(w[6]); blob_t m;
 		if (ns == (size_t)-1 || nr == (size_t)-1 || op < 1 || op > NK) { printf("ERR ids"); free(c.p); return; }
 		m = make_signenv(sids, ns, rids, nr, OID_cms_data, &c, atoi(w[5]));
 		if (!m.p) printf("E=ERR"); else printf("E=1 D=%s", res(open_signenv(&m, key_from(w[4], op), op, &c)));
-		free(m.p); free(c.p);
+		msg_free(m.p); free(c.p);
 	}
 	else if (!strcmp(w[0], "omit") && nw == 5) { buf_t c = hex2buf(w[4]); do_omit(w[1], w[2], atoi(w[3]), &c); free(c.p); }
 	else if (!strcmp(w[0], "tamper") && nw == 5) { buf_t c = hex2buf(w[4]); do_tamper(w[1], strtoul(w[2], NULL, 10), strtoul(w[3], NULL, 10), &c); free(c.p); }
